@@ -10,13 +10,19 @@ the destructor's branches and how `shutdown()`'s functor holds the connection ar
 sources (`Generated/Client.lean`, `Generated/Conn.lean`).
 
 **Quantification.**  `ins : List In` is any history of `connect / disconnect / stop / enableRetry /
-destroy / holdRef / dropRef` (from the loop thread or a foreign thread), clock advances, loop
+destroy / holdRef / dropRef` (from the loop thread or a foreign thread), of operations the user's
+connection callback performs on the client from inside the UP / DOWN report (`hookUp op`, `hookDown op`
+register `disconnect / stop / connect / query connection()` for the next report; the model runs them at
+the point where `connectEstablished()` / `handleClose()` call the callback), clock advances, loop
 iterations with *any* list of reported channels and event masks, and any results of `::connect`,
 `SO_ERROR`, self-connect test and `readv`; both build flavours (`asserts`).  The scope guard
 `Guarded` (a decidable predicate on the history, `Proofs/ClientOps.lean`) says:
 * `connect()` only while no attempt, connection, pending retry timer or queued `connect()` of that
   client is outstanding (the property's own quantifier), and only on a live client;
 * `disconnect() / stop() / enableRetry()` only on a live client;
+* from inside the UP callback never `connect()` (a connection is outstanding: the same quantifier); from inside
+  the DOWN callback `connect()` only by a client that does not reconnect by itself (`enableRetry` and a registered
+  `hookDown connect` exclude each other: both would start an attempt);
 * `~TcpClient` on the loop thread (`Who.loop`; the foreign-thread case is F11, see the end);
 * the user drops a connection reference only if the connection is down or somebody else still
   holds it (`TcpConnection`'s own contract: its destructor asserts `kDisconnected`).
@@ -121,6 +127,35 @@ theorem disconnect_graceful (w : Who) (k : Nat) (x : ConnRec)
   obtain ⟨h1, _, h3, h4⟩ := disconnect_leads _ (reach_bnd asserts ins hg) hal w k x hcn hx hst
   exact ⟨h1, h3, h4⟩
 
+/-- **connection_visible_in_callback**: whenever the user's callback, while it reports connection `k` (UP or
+DOWN), reads `client.connection()`, it gets that very connection - and `k` has been reported UP before -/
+theorem connection_visible_in_callback {pre post : List Ev} {k : Nat} {seen : Option Nat}
+    (h : (reach asserts ins).trace = pre ++ .query k seen :: post) : seen = some k ∧ Ev.up k ∈ pre :=
+  bnd_query (reach_bnd asserts ins hg) h
+
+/-- **disconnect_in_callback_graceful**: `disconnect()` issued from inside the UP callback - wherever in the
+history that callback is registered and whichever iteration reports the connection: if `disconnect()` is the
+callback's next operation and the callback runs in the iteration `iter a`, then that iteration reports a
+connection `k` UP and, after it, performs `shutdown(SHUT_WR)` on `k` (in its functor phase, behind the data
+queued before) - whatever the poller reports in it.  (DOWN follows when the peer closes: `retry_policy`,
+`callback_disconnect_then_down`.) -/
+theorem disconnect_in_callback_graceful (rest : List HookOp) (hh : (reach asserts ins).hooksUp = .disconnect :: rest)
+    (a : List Src) (hf : (step (reach asserts ins) (.iter a)).hooksUp ≠ (reach asserts ins).hooksUp) :
+    ∃ k d0 d1, (step (reach asserts ins) (.iter a)).trace = (reach asserts ins).trace ++ d0 ++ d1 ∧
+      Ev.up k ∈ d0 ∧ Ev.shutdownWr k ∈ d1 := by
+  have hb := reach_bnd asserts ins hg
+  rw [step_iter _ a hb.notDead] at hf ⊢
+  exact iter_callback_disconnect _ hb rest hh a hf
+
+/-- and the callback does run when an UP is reported: an iteration that reports a connection UP consumes the
+next operation registered for the UP callback (if there is one) -/
+theorem up_runs_callback (a : List Src) (k : Nat) (hk : Ev.up k ∈ (step (reach asserts ins) (.iter a)).trace)
+    (hnk : Ev.up k ∉ (reach asserts ins).trace) :
+    (reach asserts ins).hooksUp = [] ∨ (step (reach asserts ins) (.iter a)).hooksUp ≠ (reach asserts ins).hooksUp := by
+  have hb := reach_bnd asserts ins hg
+  rw [step_iter _ a hb.notDead] at hk ⊢
+  exact iter_up_runs_callback _ hb a k hk hnk
+
 /-- **destroy_safe_inloop** (`Who.loop`), first part: after `~TcpClient` the client is gone and one
 loop iteration later no socket of an attempt is open any more (it was closed or, had the attempt
 completed before, handed over) — in whatever state the client was destroyed -/
@@ -150,6 +185,44 @@ theorem marks (c : C) (hb : Bnd c) (hal : c.clientAlive = true) (w : Who) :
     c.trace ++ [.ghost .connect] <+: (step c (.connect w)).trace ∧
     c.trace ++ [.ghost .destroy] <+: (step c (.destroy .loop)).trace :=
   ⟨stop_marks c w hb.notDead hal, connect_marks c w hb.notDead hal, destroy_marks c hb hal⟩
+
+/-- T1: `TcpClient::newConnection` stores `connection_` before `conn->connectEstablished()` (re-extracted on
+every run, `Generated/Client.lean`); the three theorems below rest on it -/
+theorem connection_published_before_up : publishBeforeEstablish = true := gen_publishBeforeEstablish
+
+/-- **connection_visible_in_up_callback**: in whatever state a live client's `newConnection(k)` runs, a callback
+that reads `client.connection()` on UP finds the connection being reported: the events are hand-over, UP, and the
+query answered with `k` -/
+theorem connection_visible_in_up_callback (c : C) (k : Nat) (hal : c.clientAlive = true) (rest : List HookOp)
+    (hh : c.hooksUp = .query :: rest) :
+    (newConnection c k).trace = c.trace ++ [.handedOver k, .up k, .query k (some k)] ∧
+    (newConnection c k).hooksUp = rest := by
+  rw [newConnection_eq c k hal]
+  unfold runHookUp
+  rw [if_pos (show (estab c k).clientAlive = true from hal), show (estab c k).hooksUp = .query :: rest from hh]
+  simp [hookOp, emit, estab]
+
+/-- **disconnect_in_up_callback**: `disconnect()` called by the UP callback of a live client for the fresh
+connection `k` acts on that connection: `connect_` is cleared, the connection is `kDisconnecting`, its half-close
+is queued right behind what was queued before, and the client still refers to it -/
+theorem disconnect_in_up_callback (c : C) (k : Nat) (hal : c.clientAlive = true) (hn : findIn c.conns k = none)
+    (rest : List HookOp) (hh : c.hooksUp = .disconnect :: rest) :
+    (newConnection c k).tConnect = false ∧
+    (newConnection c k).pending = c.pending ++ [.shutdownInLoop k] ∧
+    (newConnection c k).trace = c.trace ++ [.handedOver k, .up k] ∧
+    (newConnection c k).connection = some k ∧ connSt (newConnection c k) k = .disconnecting ∧
+    (newConnection c k).hooksUp = rest := by
+  rw [newConnection_eq c k hal]
+  unfold runHookUp
+  rw [if_pos (show (estab c k).clientAlive = true from hal), show (estab c k).hooksUp = .disconnect :: rest from hh]
+  simp only
+  rw [disconnect_in_estab c k hn rest]
+  refine ⟨rfl, rfl, rfl, rfl, ?_, rfl⟩
+  have hnew : findIn (c.conns ++ [({ sock := k } : ConnRec)]) k = some { sock := k } := by
+    rw [findIn_append_new _ rfl, hn]; simp
+  show ((findIn ((c.conns ++ [({ sock := k } : ConnRec)]).map (updRec k toDisconnecting)) k).map (·.st)).getD .disconnected = _
+  rw [findIn_upd k k toDisconnecting (fun _ => rfl), hnew]
+  simp [updRec, toDisconnecting]
 
 /-- every cycle starts at 500 ms (the F13 fix, `Gen.Client.cycleResetsDelay`): the first retry
 after a cycle mark waits `specDelay 0 = 500` ms -/
@@ -193,16 +266,84 @@ theorem backoff_timer (c : C) (r : List Task) (ph : Bool) (hi : Mid c r ph) (k :
 
 /-- **retry_policy**: in every state `c` the loop can be in during a guarded history (`Mid`), when
 the established connection `k` of a live client goes down (`TcpConnection::handleClose` with
-`TcpClient::removeConnection` behind it), a new cycle with a new attempt starts in the same
-dispatch iff `retry_ ∧ connect_`; otherwise DOWN is all that happens -/
+`TcpClient::removeConnection` behind it; the connector's channel is gone: `c.chan = none`), the user's callback
+is told DOWN first - `downCb c k` is the state in which it returns, with whatever it did to the client - and then
+a new cycle with a new attempt starts in the same dispatch iff `retry_ ∧ connect_` hold at that moment; otherwise
+nothing further happens -/
 theorem retry_policy (c : C) (r : List Task) (ph : Bool) (hi : Mid c r ph) (k : Nat) (x : ConnRec)
-    (hx : findIn c.conns k = some x) (hst : x.st ≠ .disconnected) (hcb : x.closeCb = .client) :
+    (hx : findIn c.conns k = some x) (hst : x.st ≠ .disconnected) (hcb : x.closeCb = .client) (hch : c.chan = none) :
+    ((downCb c k).retry = true ∧ (downCb c k).tConnect = true →
+      ∃ tail, (handleClose c k).trace = (downCb c k).trace ++
+        [.ghost .cycle, .sockCreated (downCb c k).nsock, .attempt (downCb c k).nsock (downCb c k).now] ++ tail) ∧
+    (¬ ((downCb c k).retry = true ∧ (downCb c k).tConnect = true) →
+      (handleClose c k).trace = (downCb c k).trace ∧ (handleClose c k).nsock = (downCb c k).nsock) :=
+  handleClose_client_trace c r ph hi k x hx hst hcb hch
+
+/-- the DOWN callback starts with the DOWN report; a callback with no operation registered adds nothing -/
+theorem down_callback_state (c : C) (k : Nat) :
+    c.trace ++ [.down k] <+: (downCb c k).trace ∧
+    (c.hooksDown = [] → (downCb c k).trace = c.trace ++ [.down k] ∧ (downCb c k).retry = c.retry ∧
+      (downCb c k).tConnect = c.tConnect ∧ (downCb c k).nsock = c.nsock ∧ (downCb c k).now = c.now) := by
+  refine ⟨(runHookDown_grow (downState c k) k).tr, fun h => ?_⟩
+  unfold downCb
+  rw [runHookDown_none _ k (show (downState c k).hooksDown = [] from h)]
+  exact ⟨rfl, rfl, rfl, rfl, rfl⟩
+
+/-- **retry_policy** for a callback that does nothing on DOWN: a new cycle with a new attempt starts in the same
+dispatch iff `retry_ ∧ connect_`; otherwise DOWN is all that happens -/
+theorem retry_policy_plain (c : C) (r : List Task) (ph : Bool) (hi : Mid c r ph) (k : Nat) (x : ConnRec)
+    (hx : findIn c.conns k = some x) (hst : x.st ≠ .disconnected) (hcb : x.closeCb = .client) (hch : c.chan = none)
+    (hh : c.hooksDown = []) :
     (c.retry = true ∧ c.tConnect = true →
       ∃ tail, (handleClose c k).trace =
         c.trace ++ [.down k, .ghost .cycle, .sockCreated c.nsock, .attempt c.nsock c.now] ++ tail) ∧
     (¬ (c.retry = true ∧ c.tConnect = true) →
-      (handleClose c k).trace = c.trace ++ [.down k] ∧ (handleClose c k).nsock = c.nsock) :=
-  handleClose_client_trace c r ph hi k x hx hst hcb
+      (handleClose c k).trace = c.trace ++ [.down k] ∧ (handleClose c k).nsock = c.nsock) := by
+  obtain ⟨h1, h2⟩ := retry_policy c r ph hi k x hx hst hcb hch
+  obtain ⟨e1, e2, e3, e4, e5⟩ := (down_callback_state c k).2 hh
+  rw [e1, e2, e3, e4, e5] at h1
+  rw [e1, e2, e3, e4] at h2
+  refine ⟨fun h => ?_, h2⟩
+  obtain ⟨tail, ht⟩ := h1 h
+  exact ⟨tail, by rw [ht]; simp⟩
+
+/-- a DOWN callback that calls `disconnect()` or `stop()` prevents the reconnect even with retry enabled -/
+theorem down_callback_disconnect_no_reconnect (c : C) (r : List Task) (ph : Bool) (hi : Mid c r ph) (k : Nat) (x : ConnRec)
+    (hx : findIn c.conns k = some x) (hst : x.st ≠ .disconnected) (hcb : x.closeCb = .client) (hch : c.chan = none)
+    (op : HookOp) (rest : List HookOp) (hh : c.hooksDown = op :: rest) (hop : op = .disconnect ∨ op = .stop) :
+    (handleClose c k).nsock = c.nsock ∧ (handleClose c k).tConnect = false := by
+  obtain ⟨hxm, hxs⟩ := findIn_some hx
+  obtain ⟨hal, hcn⟩ := hi.c6 x hxm hst hcb
+  have hdt : (downCb c k).tConnect = false ∧ (downCb c k).nsock = c.nsock := by
+    unfold downCb runHookDown
+    rw [if_pos (show (downState c k).clientAlive = true from hal), show (downState c k).hooksDown = op :: rest from hh]
+    simp only
+    rcases hop with rfl | rfl
+    · refine ⟨?_, ?_⟩
+      · show (userDisconnect _).tConnect = false
+        unfold userDisconnect connShutdown; simp only; repeat' split
+        all_goals rfl
+      · show (userDisconnect _).nsock = c.nsock
+        unfold userDisconnect connShutdown; simp only; repeat' split
+        all_goals rfl
+    · refine ⟨?_, ?_⟩
+      · show (userStop _ .loop).tConnect = false
+        unfold userStop connectorStop; simp only [stopDispatch]; rfl
+      · show (userStop _ .loop).nsock = c.nsock
+        unfold userStop connectorStop; simp only [stopDispatch]; rfl
+  have h2 := (retry_policy c r ph hi k x hx hst hcb hch).2 (by rw [hdt.1]; simp)
+  refine ⟨h2.2.trans hdt.2, ?_⟩
+  rw [handleClose_client_eq c r ph hi k x hx hst hcb hch, if_neg (by simp [reconnects, hdt.1])]
+  exact hdt.1
+
+/-- **callback_disconnect_then_down**: after such a `disconnect()` (the client's `connect_` is false) the peer's
+close takes the connection down and that is all: DOWN, no new attempt - even with retry enabled (`c`: any
+state of a guarded history in which connection `k` is still the client's, no DOWN operation registered) -/
+theorem callback_disconnect_then_down (c : C) (r : List Task) (ph : Bool) (hi : Mid c r ph) (k : Nat) (x : ConnRec)
+    (hx : findIn c.conns k = some x) (hst : x.st ≠ .disconnected) (hcb : x.closeCb = .client) (hch : c.chan = none)
+    (hh : c.hooksDown = []) (htc : c.tConnect = false) :
+    (handleClose c k).trace = c.trace ++ [.down k] ∧ (handleClose c k).nsock = c.nsock :=
+  (retry_policy_plain c r ph hi k x hx hst hcb hch hh).2 (by rw [htc]; simp)
 
 /-- T1, statement order: in every `Connector` / `TcpClient` function the model implements (and in
 `detail::removeConnection`, `detail::removeConnector`) the source performs the same significant actions - state
@@ -259,6 +400,40 @@ example : Guarded (init true) [.connect .loop, .iter [.connector 4]] ∧
 /-- the hypotheses of `retry_policy`: the same state is a `Mid` state (it is a boundary state) -/
 example : Mid (reach true [.connect .loop, .iter [.connector 4]]) [] true :=
   reach_bnd true _ (by decide)
+
+/-- a guarded history with operations performed inside the connection callback: the first UP callback reads
+`connection()`, the DOWN callback of that connection reads it too, the client (retry enabled) reconnects, and the
+UP callback of the second connection calls `disconnect()` -/
+def hookHistory : List In :=
+  [.enableRetry, .hookUp .query, .hookUp .disconnect, .hookDown .query, .connect .loop, .iter [.connector 4],
+   .envRead (some 0), .iter [.conn 0 1], .iter [.connector 4], .envRead (some 0), .iter [.conn 1 1], .iter []]
+
+example : Guarded (init true) hookHistory := by decide
+example : Guarded (init false) hookHistory := by decide
+example : (reach true hookHistory).trace.count (.query 0 (some 0)) = 2 ∧ Ev.shutdownWr 1 ∈ (reach true hookHistory).trace ∧
+    Ev.down 1 ∈ (reach true hookHistory).trace ∧ (reach true hookHistory).nsock = 2 := by decide
+
+/-- the hypotheses of `disconnect_in_callback_graceful` hold before the iteration that reports the second connection -/
+example : Guarded (init true) (hookHistory.take 8) ∧ (reach true (hookHistory.take 8)).hooksUp = [.disconnect] ∧
+    (step (reach true (hookHistory.take 8)) (.iter [.connector 4])).hooksUp ≠ (reach true (hookHistory.take 8)).hooksUp := by
+  decide
+
+/-- `connect()` from inside the DOWN callback of a client that does not reconnect by itself, `stop()` from inside
+the UP callback of the connection that follows -/
+def hookHistory2 : List In :=
+  [.hookDown .connect, .hookUp .query, .hookUp .stop, .connect .loop, .iter [.connector 4], .envRead (some 0),
+   .iter [.conn 0 1], .iter [.connector 4], .iter [], .destroy .loop, .iter [], .iter []]
+
+example : Guarded (init true) hookHistory2 := by decide
+example : Ev.attempt 1 0 ∈ (reach true hookHistory2).trace ∧ Ev.up 1 ∈ (reach true hookHistory2).trace ∧
+    stoppedAfter (reach true hookHistory2).trace = true ∧ Ev.connClosed 1 ∈ (reach true hookHistory2).trace := by decide
+
+/-- outside the scope guard: `connect()` from the UP callback; `connect()` from the DOWN callback of a client with
+retry enabled (two attempts: the model shows the failed assertion `!channel_`) -/
+example : ¬ Guarded (init true) [.hookUp .connect] := by decide
+example : ¬ Guarded (init true) [.enableRetry, .hookDown .connect] := by decide
+example : (reach true [.hookDown .connect, .enableRetry, .connect .loop, .iter [.connector 4], .envRead (some 0),
+    .iter [.conn 0 1]]).dead = true := by decide
 
 /-! ### destruction from another thread (F11): outside the theorems above -/
 
